@@ -2,16 +2,18 @@
 (* The boundary catalogue of C19's conformance universe (E2image.tla Part 4), written as JSON (IOEnv.OUT) for
    gen/c19_images.py:
      sizes_quick / sizes_more   [bs, blocks]: small populated filesystems on / next to the L2-table boundaries
-     wide_quick / wide_more     [bs, cbits, blocks, targets]: one filesystem of `blocks` blocks of size bs that must hold
-                                non-zero metadata in every block of `targets` (the blocks just below, at and just above the
-                                byte offsets 2^31 and 2^32, where an offset evaluated in fewer than 64 bits breaks)
-   The harness chooses a geometry that realises the targets; Trace_E2imageLayout (Covers) has TLC confirm that the image
-   e2image wrote maps every target.                                                                                   *)
+     wide_quick / wide_more     [kind, bs, cbits, blocks, targets, hole]: one filesystem of `blocks` blocks of size bs that must
+                                hold non-zero metadata in every block of `targets` (the blocks just below, at and just above
+                                the byte offsets 2^31 and 2^32, where an offset evaluated in fewer than 64 bits breaks) and,
+                                when hole > 0, no metadata at all along at least `hole` consecutive blocks (2^31 bytes)
+   The harness chooses a geometry that realises the targets; Trace_E2imageLayout (Covers, CoversHole) has TLC confirm that
+   the source filesystem does.                                                                                        *)
 EXTENDS E2image, Json, IOUtils, SequencesExt
 Size(p)  == [bs |-> p[1], blocks |-> p[2]]
-Wide(cb) == [bs |-> 2 ^ cb, cbits |-> cb, blocks |-> WideBlocks(cb), targets |-> SetToSortSeq(WidthTargets(cb), <)]
+Wide(kind, cb) == [kind |-> kind, bs |-> 2 ^ cb, cbits |-> cb, blocks |-> WideBlocks(cb),
+                   targets |-> SetToSortSeq(WideTargets(kind, cb), <), hole |-> WideHole(kind, cb)]
 Univ == [sizes_quick |-> SetToSeq({Size(p) : p \in SizesQuick}), sizes_more |-> SetToSeq({Size(p) : p \in SizesMore}),
-         wide_quick |-> SetToSeq({Wide(cb) : cb \in WideQuick}), wide_more |-> SetToSeq({Wide(cb) : cb \in WideMore}),
+         wide_quick |-> SetToSeq({Wide(k, cb) : k \in WideKinds, cb \in WideQuick}), wide_more |-> SetToSeq({Wide(k, cb) : k \in WideKinds, cb \in WideMore}),
          boundary_bits |-> SetToSortSeq(WidthBoundaryBits, <)]
 ASSUME JsonSerialize(IOEnv.OUT, Univ)
 EmitInit == phase = "emit" /\ cls = <<>> /\ src = <<>> /\ all = FALSE /\ marked = {} /\ raw = <<>> /\ q = <<>> /\ nb = 0 /\ conv = <<>>
